@@ -453,7 +453,10 @@ static void judge(const Case& c, const Out& o, Verdict& v) {
       LD fx = f_ref(c.fn, p, x);
       if (!std::isfinite((double)fx)) { v.stats["ref_nonfinite"]++; return; }
       LD pl = seg >= 0 ? o.y[seg] + ((LD)o.y[seg + 1] - o.y[seg]) * (r - o.x[seg]) / ((LD)o.x[seg + 1] - o.x[seg]) : pl_eval(o, r);
-      LD rt = fabsl(fx - pl) / ((LD)c.ubErr * std::max((LD)1, fabsl(fx)));
+      // periodLength is the double nearest to the true period: k periods away the argument is off by up to
+      // |k|*P*2^-53, which is not the approximator's doing
+      LD rep = fabsl(d_ref(c.fn, p, x)) * fabsl((LD)k) * P * 1.2e-16L;
+      LD rt = std::max((LD)0, fabsl(fx - pl) - rep) / ((LD)c.ubErr * std::max((LD)1, fabsl(fx)));
       ++probes;
       if (rt > worst.ratio) worst = {rt, r, fx, pl, seg, k};
       if (rt > SLACK) {
@@ -510,7 +513,7 @@ static void judge(const Case& c, const Out& o, Verdict& v) {
           if (xb < lbx || xb > ubx) continue;
           LD fx = f_ref(c.fn, p, xb);
           LD yl = o.y.back(), yr = o.y.front();
-          LD allowed = (LD)c.ubErr * std::max((LD)1, fabsl(fx)) * SLACK;
+          LD allowed = (LD)c.ubErr * std::max((LD)1, fabsl(fx)) * SLACK + fabsl(d_ref(c.fn, p, xb)) * (fabsl((LD)k) + 1) * P * 1.2e-16L;
           v.stats["period_boundaries_checked"]++;
           if (fabsl(yl - fx) > allowed || fabsl(yr - fx) > allowed || fabsl(yl - yr) > 2 * allowed)
             v.add(F + " discontinuity at a period boundary ubErr=" + gstr(c.ubErr), (double)fabsl(yl - yr),
@@ -537,7 +540,8 @@ static void judge(const Case& c, const Out& o, Verdict& v) {
             LD fx = f_ref(c.fn, p, x);
             if (!std::isfinite((double)fx)) continue;
             LD pl = o.y[seg] + ((LD)o.y[seg + 1] - o.y[seg]) * (r - o.x[seg]) / ((LD)o.x[seg + 1] - o.x[seg]);
-            LD rt = fabsl(fx - pl) / ((LD)c.ubErr * std::max((LD)1, fabsl(fx)));
+            LD rep = fabsl(d_ref(c.fn, p, x)) * fabsl(kk) * P * 1.2e-16L;
+            LD rt = std::max((LD)0, fabsl(fx - pl) - rep) / ((LD)c.ubErr * std::max((LD)1, fabsl(fx)));
             ++probes; done1 = true;
             if (rt > worst.ratio) worst = {rt, r, fx, pl, seg, (long)kk};
             if (rt > SLACK) { Worst& wl = seg_over[std::make_pair(seg, (long)kk)]; if (rt > wl.ratio) wl = {rt, r, fx, pl, seg, (long)kk}; }
